@@ -257,9 +257,17 @@ def path_failure_is_false(ctx):
                             texts.append((norm(n.targets[0]), v_))
         ok = any(t_.endswith("._path") and v_ == expect for t_, v_ in texts)
         ok2 = any(t_.endswith("._point_attr") and v_ == "self._point_attr" for t_, v_ in texts)
+        # builders are immutable: the method writes no attribute of `self` and never hands `self` back
+        inplace = [n for n in walk_local(g.node) if isinstance(n, (ast.Assign, ast.AugAssign, ast.AnnAssign))
+                   and any(is_self_attr(t0) for t0 in (n.targets if isinstance(n, ast.Assign) else [n.target]))]
+        inplace += [n for n in walk_local(g.node) if isinstance(n, ast.Return) and isinstance(n.value, ast.Name) and n.value.id == "self"]
+        if inplace:
+            ok = False
         yield Ob("C09.R2", ["C09", "C17"], f"{q} | extends the path at the end and keeps the point attribute", ok and ok2,
                  "path + (part,), same point attribute" if ok and ok2 else
-                 "the new query does not append the part to the path / keep the point attribute", g.loc())
+                 (f"`{norm(inplace[0], 50)}` changes or returns the builder itself: a query generated from it earlier reads the path "
+                  f"at evaluation time and silently changes its meaning" if inplace else
+                  "the new query does not append the part to the path / keep the point attribute"), g.loc())
 
 
 @rule("C09.R3", ["C09", "C17"], min_instances=8, design="3.9")
